@@ -391,7 +391,7 @@ func c16ValueFor(r *core.Rand, t reflect.Type, depth int, ill bool) any {
 // extras include the field keys of the other family types: unknown here, claimed there (state leaking from one
 // call to the next shows up as such a key vanishing)
 var c16ExtraKeys = []string{"extra", "zz", "", "<<", "1", "true", "~", "Key", "KEY", "s ", "rest", "remainingfields", "contents",
-	"k", "n", "key", "label", "group", "name", "id", "cmds", "s", "i", "f", "b", "ms", "ma", "mss", "title"}
+	"k", "n", "key", "label", "group", "name", "id", "cmds", "s", "i", "f", "b", "ms", "ma", "mss", "title", "-", "skipped", "unexported"}
 
 func c16DocFor(r *core.Rand, t reflect.Type, depth int, ill bool) *ordered.MapSA {
 	type cand struct {
@@ -504,6 +504,16 @@ func runC16(c *ctx) error {
 		dst := mk()
 		t := reflect.TypeOf(dst).Elem()
 		doc := c16DocFor(rng, t, 2, ill)
+		if i%97 == 13 {
+			// a very wide mapping: 64-200 filler keys in front of the keys the fields name (position must not matter)
+			wide := ordered.NewMap[string, any](0)
+			for j := 0; j < 64+rng.Intn(137); j++ {
+				wide.Set(fmt.Sprintf("filler_%03d", j), j)
+			}
+			doc.Range(func(k string, v any) error { wide.Set(k, v); return nil })
+			doc = wide
+			c.res.Hist("doc.wide-mapping")
+		}
 		if rng.Intn(6) == 0 && doc.Len() > 0 {
 			// the same document as a map that still carries tombstones (keys set and deleted below the compaction
 			// threshold, a rename onto an existing key): dead slots are not part of the input
